@@ -90,7 +90,7 @@ CLAIMS = {
 }
 
 # Additions after the unseen batches 3 and 4 (DESIGN.md §5.2, §5.3): (technique suffix, decided suffix)
-ADD5 = {'C01': ('who-may-call rule for os.Link/os.Symlink', 'no backend function hard-links or symlinks one key (or version) to another.'), 'C03': ("loop-position rule for the evaluator's allowing result; failure-closure (assume-failed reachability) of the per-key check in DeleteObjects", 'the evaluator returns an allowing result only after its statement loop, matcher loops return only the positive verdict from inside; once VerifyAccess refused a key of a batch the backend DeleteObjects is unreachable.'), 'C05': ('temp-directory origin rule for every openTmpFile; no package-level state on the request path', 'every temp file is created under the pruned temp directory; no package-level map, sync.Map or copy buffer is written on the request path.'), 'C07': ('page-full guard rule for fs.SkipAll; zone proof for narrowing conversions of parsed numbers', 'the walk ends early only behind the page-full test; max-keys is narrowed to int32 only where it is proven to fit.'), 'C08': ('produced-after rule (no part-list refusal after MkdirAll); operator rule for the part-order test', "no refusal of the part list is produced after the key's parent directories were created; a part number equal to its predecessor is refused."), 'C09': ('who-may-call rule for os.Link/os.Symlink (shared with C01)', 'a saved version is never a hard link to the object it saves.'), 'C10': ('same-target rule for the lock lookups; no package-level state in auth', 'GetObjectLegalHold/GetObjectRetention look only at the version the version id resolved to; no lock verdict is memoised per process.'), 'C11': ('temp-directory origin rule for every openTmpFile', 'unfinished files are created only under the pruned temp directory.'), 'C12': ('no package-level state in s3api/utils', 'no signing key or buffer is kept in package-level state between uploads.'), 'C14': ('loop-position rules shared with C03', 'same as C03: order of statements and map iteration order do not decide.'), 'C15': ('reads-do-not-write rule over the non-mutating rows of the operation table', 'no Get*/Head*/List* method of the posix backend reaches an attribute store/delete or a file removal, rename or creation.'), 'C17': ('no package-level state on the request path; constructor-only assignment of the cache map', "no per-process memo of request-dependent facts; the cache's map is never swapped for a copy."), 'C18': ('failure-closure of the upstream CreateBucket before PutBucketTagging', 'the ACL tag is written only onto a bucket this request created.'), 'C19': ('no-normalisation origin rule for the event key; not-in-a-loop rule for the delivery call', 'the notification names the key as requested; each event is delivered by a single attempt.'), 'C20': ('zone proof for narrowing conversions; result-pointer agreement between controllers and the posix backend; no unsynchronised package-level maps', 'a parsed number is narrowed only when it fits; every result field a controller dereferences unguarded is set in every result the posix backend returns on that path.'), 'C02': ('no package-level state (signing-key caches) and reader-chain rule', 'no key material is memoised per process.')}
+ADD5 = {'C01': ('who-may-call rule for os.Link/os.Symlink', 'no backend function hard-links or symlinks one key (or version) to another.'), 'C03': ("loop-position rule for the evaluator's allowing result; failure-closure (assume-failed reachability) of the per-key check in DeleteObjects", 'the evaluator returns an allowing result only after its statement loop, matcher loops return only the positive verdict from inside; once VerifyAccess refused a key of a batch the backend DeleteObjects is unreachable.'), 'C05': ('temp-directory origin rule for every openTmpFile; no package-level state on the request path', 'every temp file is created under the pruned temp directory; no package-level map, sync.Map or copy buffer is written on the request path.'), 'C07': ('page-full guard rule for fs.SkipAll; zone proof for narrowing conversions of parsed numbers', 'the walk ends early only behind the page-full test; max-keys is narrowed to int32 only where it is proven to fit.'), 'C08': ('produced-after rule (no part-list refusal after MkdirAll); operator rule for the part-order test', "no refusal of the part list is produced after the key's parent directories were created; a part number equal to its predecessor is refused."), 'C09': ('who-may-call rule for os.Link/os.Symlink (shared with C01)', 'a saved version is never a hard link to the object it saves.'), 'C10': ('same-target rule for the lock lookups; no package-level state in auth', 'GetObjectLegalHold/GetObjectRetention look only at the version the version id resolved to; no lock verdict is memoised per process.'), 'C11': ('temp-directory origin rule for every openTmpFile', 'unfinished files are created only under the pruned temp directory.'), 'C12': ('no package-level state in s3api/utils', 'no signing key or buffer is kept in package-level state between uploads.'), 'C14': ('loop-position rules shared with C03', 'same as C03: order of statements and map iteration order do not decide.'), 'C15': ('reads-do-not-write rule over the non-mutating rows of the operation table', 'no Get*/Head*/List* method of the posix backend reaches an attribute store/delete or a file removal, rename or creation.'), 'C17': ('no package-level state on the request path; constructor-only assignment of the cache map', "no per-process memo of request-dependent facts; the cache's map is never swapped for a copy."), 'C18': ('failure-closure of the upstream CreateBucket before PutBucketTagging', 'the ACL tag is written only onto a bucket this request created.'), 'C19': ('no-normalisation origin rule for the event key; not-in-a-loop rule for the delivery call', 'the notification names the key as requested; each event is delivered by a single attempt.'), 'C20': ('zone proof for narrowing conversions; result-pointer agreement between controllers and the posix backend; no unsynchronised package-level maps; non-nil bottom of the body-reader chain', 'the request body stream is the source of the reader chain only where it is known non-nil (fix 0dbe61a); a parsed number is narrowed only when it fits; every result field a controller dereferences unguarded is set in every result the posix backend returns on that path.'), 'C02': ('no package-level state (signing-key caches) and reader-chain rule', 'no key material is memoised per process.')}
 
 ADD = {
  "C01": ("hash-provenance rule (md5.New -> TeeReader -> copy -> Sum order), drain-before-Sum rule for HashReader, store/delete ordering rule, map-rooted-at-backend rule",
